@@ -41,7 +41,9 @@ ASSUMPTIONS = [
     "rationals; the templates at double execute the same algorithm as at an exact field",
     "copy between backends: compared with the SERIAL Coq kernels on the assembled matrix (correspondence only); remote-row "
     "exchange: modelled by reading the owner's row (compared with the implementation, no theorem about the message exchange)",
-    "power-method spectral radius: only rank-consistency (bitwise identical on all ranks) is checked",
+    "power-method spectral radius: only rank-consistency (bitwise identical on all ranks) is checked; in histories: bitwise identical to "
+    "the estimate on a never-moved object",
+    "histories: the copy constructor's value conversion is not modelled (integer data exact in float); builtin backend only",
 ]
 TRUSTED_BASE = [
     "mpirun/Open MPI 4.1.4, mpicxx (g++ 12); harness/drv_mpi_algebra.cpp gathers per-rank strings on rank 0; harness/pmpi_trace.hpp",
@@ -51,6 +53,8 @@ RULE = ("cases derived from VERIF_SEED by tools/props/C11.py: every contiguous p
         "columns, unsorted rows), plus random n <= 30; Gershgorin on matrices with a full diagonal and on matrices with rows "
         "without diagonal entry / duplicate diagonal entries, 1..5 OpenMP threads per rank; structurally one-way couplings (block "
         "lower bidiagonal: ranks that only send / only receive) with 2-3 consecutive products; MPI call-sequence cases (xtrace, tr:<op>); "
+        "operation histories on one object (hist: move_to_backend(keep_src) x consumers, own random stream seed*1000+1111, 1..5 ranks "
+        "(thorough 1..8), all partitions of n <= 4 (5) + random n <= 14, integer data, power-of-two diagonals); "
         "distinct = distinct (op, payload); non-trivial = implementation output contains a non-zero value and is not an exception")
 
 TIMEOUT = 240
